@@ -186,7 +186,7 @@ def isRateLimited (c : Cfg) (s : St) (now : Int) (a : Addr) (qtype : Nat) : St Ã
 /-- The times observed by the iterations of a `CountResponses` loop started at `now`: each
 iteration calls `time.Now()` itself; `tick` is the (positive) clock advance per iteration. -/
 def loopTimes (now : Int) (tick : Int) (n : Nat) : List Int :=
-  (List.range n).map (fun (i : Nat) => now + tick * (i : Int))
+  (List.range n).map (fun (i : Nat) => now + tick * ((i : Int) + 1))
 
 /-- `CountResponses`: âŒŠlen / estâŒ‹ further events (est > 0 is C20's business), one per observed
 time. -/
